@@ -270,3 +270,58 @@ func basePointerViews(c *Ctx) {
 		}
 	}
 }
+
+// contextDraws: registers drawn through a build.Context (the Collection a generator actually uses), before the
+// first function, inside several functions and after switching functions, interleaved with draws from a
+// second Context: within one Context no two drawn registers of a kind share an identity, whichever function
+// was active when they were drawn (a value drawn earlier may be used in a later function).
+func contextDraws(c *Ctx) {
+	o := c.Out
+	rng := NewRNG(c.Seed + 2050)
+	for h := 0; h < 30; h++ {
+		ctxs := []*build.Context{build.NewContext(), build.NewContext()}
+		seen := []map[reg.ID]string{{}, {}}
+		var steps []string
+		bad := ""
+		nf := 0
+		for s := 0; s < 40 && bad == ""; s++ {
+			w := rng.Intn(2)
+			ctx := ctxs[w]
+			if rng.Chance(20) {
+				nf++
+				ctx.Function(fmt.Sprintf("f%d", nf))
+				steps = append(steps, fmt.Sprintf("ctx%d.Function(f%d)", w, nf))
+				continue
+			}
+			var v reg.Register
+			var what string
+			switch rng.Intn(8) {
+			case 0:
+				v, what = ctx.GP64(), "GP64"
+			case 1:
+				v, what = ctx.GP32(), "GP32"
+			case 2:
+				v, what = ctx.GP8(), "GP8"
+			case 3:
+				v, what = ctx.GP8H(), "GP8H"
+			case 4:
+				v, what = ctx.XMM(), "XMM"
+			case 5:
+				v, what = ctx.ZMM(), "ZMM"
+			case 6:
+				v, what = ctx.K(), "K"
+			default:
+				v, what = ctx.GP16(), "GP16"
+			}
+			steps = append(steps, fmt.Sprintf("ctx%d.%s()", w, what))
+			if prev, dup := seen[w][v.ID()]; dup {
+				bad = fmt.Sprintf("step %d (%s) returns the identity %#x already given out at %s of the same Context", s, steps[len(steps)-1], uint64(v.ID()), prev)
+			}
+			seen[w][v.ID()] = fmt.Sprintf("step %d (%s)", s, steps[len(steps)-1])
+		}
+		idx := o.AddCase(Case{Key: "regs:context-draws", Desc: strings.Join(steps, "; "), Input: map[string]any{"steps": steps}, Nontrivial: true})
+		if bad != "" {
+			o.Plan.GoViolations = append(o.Plan.GoViolations, GoViolation{Key: "regs:context-draw-repeats-identity", Desc: fmt.Sprintf("case %d: %s", idx, bad), Replay: map[string]any{"steps": steps}})
+		}
+	}
+}
